@@ -383,8 +383,6 @@ GenIsFunction == gen = [s |-> gen.s, t |-> gen.t, c |-> cfg] /\ (dirty = "clean"
 NoDevStep == GenStep /\ act'.devs = {}
 MethodsKeptND == [][NoDevStep => MethodsKeptP(PostRec(meth', helpers', imports', warn', ok', comp'))]_vars
 FilesParseND  == [][NoDevStep => ok']_vars
-\* with deviations on, the recorded ideal successor satisfies what the deviated one may not
-IdealRecorded == [][GenStep /\ act'.devs # {} => act'.ideal.ok]_vars
 
 (* Explaining an observed (or modelled) post record by named deviations: the smallest D for which the  *)
 (* implementation-level successor GenResult(D) has the same resolver part; Blame(name, D): the members  *)
